@@ -254,6 +254,17 @@ Handle(ll, e) ==
                                          ![s].dstate = [c |-> <<cur>>, w |-> FALSE], ![s].dstage = "dumped", ![s].dexact = FALSE],
           msgs |-> IF e.out = VtDump(cur) THEN <<>>
                    ELSE <<Msg("DRIFT", ll, "dump() text differs from the specification's mirror (the text is not a property)")>>]
+  ELSE IF k = "q" THEN
+    (* read-only accessors beyond the listed properties: Vt::line(n), Line::chunks / text / len, Cursor -> Option *)
+    LET s == e.slot  cur == vts[s] IN
+    IF cur = Dead THEN [vts |-> vts, gh |-> gh, msgs |-> <<>>]
+    ELSE LET v == View(cur.t.buf)
+             wantChunks == [r \in 1..Len(v) |-> LET ch == Chunks(v[r].c, LAMBDA c1, c2 : c1[2] # c2[2]) IN [i \in 1..Len(ch) |-> Len(ch[i])]]
+             wantTexts == [r \in 1..Len(v) |-> LineText(v[r])]
+             wantLens == [r \in 1..Len(v) |-> Len(v[r].c)]
+         IN [vts |-> vts, gh |-> gh,
+             msgs |-> IF e.chunks = wantChunks /\ e.texts = wantTexts /\ e.lens = wantLens /\ e.curopt THEN <<>>
+                      ELSE <<Msg("DRIFT", ll, "a read-only accessor (line(n) / chunks / text / len / cursor option) differs from the specification")>>]
   ELSE IF k = "text" THEN
     LET s == e.slot  cur == vts[s] IN
     IF cur = Dead THEN [vts |-> vts, gh |-> gh, msgs |-> <<>>]
@@ -339,6 +350,7 @@ Tags(e, prevs, p0) ==
   ELSE IF e.ev \in {"tcfs", "tcflush"} THEN <<"conformance:collector">>
   ELSE IF e.ev = "text" THEN <<"conformance:text">>
   ELSE IF e.ev = "dump" THEN <<"conformance:dump-mirror">>
+  ELSE IF e.ev = "q" THEN <<"conformance:accessors">>
   ELSE IF e.ev = "rs" THEN <<"conformance:resize", "GeomOK", "ChangesSound", "Bound">>
                            \o (IF prevs # Dead /\ ~prevs.t.alt /\ prevs.t.lim = -1 THEN <<"ResizeTextOK">> ELSE <<>>)
   ELSE IF e.ev = "fc" THEN <<"conformance:feed", "GeomOK">>
